@@ -89,8 +89,8 @@ def _run_scenarios(pid, tier, v, n_quick, n_thorough):
     return dict(res=res, viols=viols, lines=lines, stats=stats, runs=len(runs), tlc=r, trace=tmp)
 
 
-def judge(pid, v, e2e, prefixes):
-    """Clauses named <PID>_... belong to pid; the others are reported as drift."""
+def judge(pid, v, e2e, prefixes, also=()):
+    """Clauses named <PID>_... belong to pid (plus the clause names in `also`); the others are reported as drift."""
     wd = os.path.join(vlib.OUT, pid)
     seen = set()
     known = {}
@@ -98,7 +98,7 @@ def judge(pid, v, e2e, prefixes):
     for x in e2e["viols"]:
         for c in x["clauses"]:
             owner = c.split("_")[0]
-            if owner not in prefixes:
+            if owner not in prefixes and c not in also:
                 if not re.match(r"^C\d+_F\d+_", c):     # listed findings of other properties are not drift
                     drift[c] += 1
                 continue
